@@ -325,6 +325,11 @@ func genOps(rt *rapid.T, spec stackSpec) []op {
 		o.Keys = []string{rapid.SampledFrom(keyAlphabet).Draw(rt, "key")}
 		o.Val = genValue(rt, i)
 		o.TTL = time.Duration(rapid.IntRange(1, 20).Draw(rt, "ttl")) * time.Second
+		if rapid.IntRange(0, 11).Draw(rt, "noLifetime") == 0 && (o.Kind == "set" || o.Kind == "setasync" || o.Kind == "setmulti" || o.Kind == "add") {
+			// a plain write with no lifetime left (a caller that computes "expires at - now"): on every
+			// in-process layer the entry is expired as soon as it is written, and what was there before is gone
+			o.TTL = time.Duration(rapid.SampledFrom([]int{0, -1}).Draw(rt, "ttlNone")) * time.Second
+		}
 		o.Adv = time.Duration(rapid.SampledFrom([]int{1, 500, 999, 1000, 1001, 2000, 5000, 12000, 21000}).Draw(rt, "advMs")) * time.Millisecond
 		if has(spec.layers(), "snappy") && rapid.IntRange(0, 14).Draw(rt, "poison") == 0 {
 			ops = append(ops, op{Kind: "poison", View: o.View}, op{Kind: "get", View: o.View, Keys: []string{"poisoned", "a"}}, op{Kind: "getwitherror", View: o.View, Keys: []string{"poisoned"}})
@@ -366,7 +371,7 @@ func genOps(rt *rapid.T, spec stackSpec) []op {
 		case "straddle":
 			k := o.Keys[0]
 			ttl, ok := lastTTL[k]
-			if !ok {
+			if !ok || ttl <= 0 {
 				ttl = o.TTL
 				ops = append(ops, op{Kind: "set", View: o.View, Keys: []string{k}, Val: o.Val, TTL: ttl})
 			}
